@@ -10,22 +10,22 @@ CHECKS = {
    "Held on the concurrent histories produced: revision uniqueness over responses and over batches observed at the storage boundary, real-time order of every (returned-before-called) pair, per-key monotonicity, header >= data.",
    "revisions of failed guarded writes are used only when the response determines them"),
  "C04": ("exploration", "online assertion at the storage boundary + deposit-conservation monitor on a verif hook + snapshot check of concurrent reads", "5 C04",
-   "Held on executions with delayed/out-of-order commits, injected definite storage errors, future and negative expected revisions: read revision never reached an unfinished write; every dealt revision resolved exactly once; concurrent lists are snapshots; probe write becomes readable.",
+   "Held on executions with delayed/out-of-order commits, injected definite storage errors, unknown outcomes (incl. faults on the retry loop's repair writes), future and negative expected revisions (also through etcd Txn): read revision never reached an unfinished write; every dealt revision resolved exactly once; concurrent lists are snapshots; probe write becomes readable.",
    "faults are injected by a wrapper at the storage.KvStorage boundary; wedge verdict by conservation of notify deposits (hook), never by timeout"),
  "C03": ("exploration", "differential run against an executable MVCC reference model over generated sequential histories", "5 C03",
-   "Held on generated sequential histories with prefix-related key names and hostile values: every Get/List/limited List/Count at every sampled reported revision equals the reference snapshot, before and after more writes and a compaction below.",
+   "Held (apart from the recorded deletion-marker finding) on generated sequential histories with prefix-related key names and hostile values on single- and multi-partition engines: every Get/List/limited List/Count at every sampled reported revision equals the reference snapshot, before and after more writes and a compaction below.",
    "reads only at revisions the node reported and not below the compaction floor"),
  "C11": ("exploration", "lock-step differential run of generated operation sequences against a sorted-map reference, per engine and behind the metrics wrapper", "5 C11",
-   "Held on generated batch/get/delete/iterate sequences on memkv, Badger and the TiKV mock, each also behind the production metrics wrapper with the real Prometheus client: all-or-nothing batches, conditions evaluated exactly and reported as failed conditions, iterators bounded, ordered and snapshot-consistent.",
+   "Held on generated batch/get/delete/iterate sequences on memkv, Badger and the TiKV mock, each also behind the production metrics wrapper with the real Prometheus client: all-or-nothing batches, conditions evaluated exactly and reported as failed conditions, iterators bounded, ordered and snapshot-consistent; concurrent readers do not disturb each other and concurrent conditional writers are atomic (exactly one put-if-absent wins, no CAS increment is lost).",
    "only the documented contract of pkg/storage/interface.go is demanded; TTL always 0; ops of one batch touch distinct keys"),
  "C08": ("exploration", "monitor over generated compaction/read sequences: floor=max(accepted), stored record and refusal of reads below it", "5 C08",
-   "Held on generated sequences of compaction requests (increasing, repeated, older, zero, above current) interleaved with writes: the stored record never dropped below the highest accepted revision and every List/ListByStream below it was refused; reads at/above it equal the reference snapshot.",
+   "Held on generated sequences of compaction requests (increasing, repeated, older, zero, above current) interleaved with writes: the stored record never dropped below the highest accepted revision and every List/ListByStream below it was refused, on the compacting node and on a second node over the same store; reads at/above it equal the reference snapshot.",
    "only compactions that returned without error raise the monitor's floor"),
  "C10": ("exploration", "generated inputs with round-trip/order oracles on the real coder, real memkv iteration and Backend.List", "5 C10",
    "Held on generated keys/revisions/bounds over the documented alphabet: round trip, order preservation, index-first contiguity, exact enclosure of raw ranges and prefixes by the computed internal bounds.",
    "alphabet = bytes > '$'; PrefixEnd's documented no-successor sentinel (empty / all-0xff prefix) is excluded as a bound"),
  "C12": ("exploration", "lock-step differential execution of one request script on all engines, transcript equality", "5 C12",
-   "Held on generated sequential scripts executed in lock-step on memkv, Badger, TiKV mock and their metrics-wrapped variants: identical outcomes, revisions, range results, compaction answers and watch events.",
+   "Held on generated sequential scripts executed in lock-step on memkv, Badger, TiKV mock, their metrics-wrapped variants, a TiKV mock pre-split into regions and a multi-partition memkv: identical outcomes, revisions, range results, compaction answers and watch events.",
    "error texts are not compared, only error vs response; TiKV is the in-process mock"),
  "C13": ("exploration", "controlled partitioning (GetPartitions override / pre-split mock regions) with differential comparison against the unpartitioned reference snapshot and stream-framing monitor", "5 C13",
    "Held on generated histories under generated partitionings (borders on index records, inside one key's versions, at never-stored keys, shuffled): List, Count, whole-interval stream, per-advertised-partition streams and the etcd range stream each contain every qualifying key once with the right version; batches name the read revision; one terminator, last.",
@@ -37,32 +37,32 @@ CHECKS = {
    "Held on observer loops run against concurrent writers (successes and failures) and a compactor on memkv, Badger and the TiKV mock: the reconstruction equals the later list exactly.",
    "events are delivered in revision order (C05), which makes the sentinel a logical completeness marker"),
  "C07": ("fault_enumeration", "enumeration of every compaction delete position x {fail one, die after} on identically rebuilt stores, differential reads against the reference model", "5 C07",
-   "Every delete call position of every generated history's compaction was faulted (fail-one generic / fail-one failed-compare / compactor death + new backend); after each, all reads at revisions >= R, a second clean compaction, the same reads, model-chosen writes on every key and records outside the compaction ranges were compared with the reference. Concurrent writer/compactor variant sampled.",
+   "Every delete call position of every generated history's compaction was faulted (fail-one generic / fail-one failed-compare / compactor death + new backend / a client re-create placed right before every index-record removal); after each, all reads at revisions >= R, a second clean compaction, the same reads, model-chosen writes on every key and records outside the compaction ranges were compared with the reference. Concurrent writer/compactor variant sampled.",
    "a compactor death is modelled as all later deletes failing plus a new backend over the same store; histories are sampled, positions within a history are exhaustive"),
  "C09": ("fault_enumeration", "enumeration of unknown-outcome faults over every write batch x {applied, not applied} (+ second-order faults on the repair write), convergence monitor on hook-observed quiescence", "5 C09",
    "Every write batch position of every generated history was answered 'outcome unknown' in both variants, plus three second-order variants on the repair write; the client always got an error, later writes flowed, compaction stayed below the unresolved revision, and after hook-observed quiescence store and event stream converged to the storage-boundary ground truth.",
    "unknown outcomes are injected at the storage.KvStorage boundary; retry intervals shortened through the verif hook"),
  "C19": ("exploration", "Go race detector over the concurrent workloads of the other checks (worker built with -race), reports deduplicated by innermost kubebrain function pair", "5 C19",
-   "No data race report with a kubebrain frame was produced while the concurrent workloads (writers, readers, watchers joining/leaving/overflowing, compaction, async retry) ran under the race detector on memkv and Badger; counts of executions and report blocks in evidence.",
+   "No data race report with a kubebrain frame was produced while the concurrent workloads (writers, readers, watchers joining/leaving/overflowing, overflow with subscriber churn, compaction, async retry, lock candidates, follower taking over, leader/follower pair with the real revision syncer) ran under the race detector on memkv and Badger; counts of executions and report blocks in evidence.",
    "a race detector sees only executed interleavings; reports wholly inside the TiKV mock or the harness are listed, not counted"),
  "C14": ("exploration", "complete step-interleaving enumeration on memkv against a register model (lock-step) + porcupine linearizability check of recorded concurrent lock histories", "5 C14",
-   "All interleavings of 2 and of 3 candidates x 2 acquire rounds were executed on memkv through the real resourcelock.Interface and agreed with a compare-and-swap register model step by step; sampled interleavings on Badger, the TiKV mock and locks obtained from real backends; recorded concurrent histories are linearizable as a CAS register (porcupine).",
+   "All interleavings of 2 and of 3 candidates x 2 acquire rounds, and of 2 candidates retrying a rejected write without a fresh Get, were executed on memkv through the real resourcelock.Interface and agreed with a compare-and-swap register model step by step; sampled interleavings on Badger, the TiKV mock and locks obtained from real backends; recorded concurrent histories are linearizable as a CAS register (porcupine).",
    "lease timing not modelled (candidates always try); enumeration complete only at the stated bound on memkv"),
  "C15": ("exploration", "hand-over scenarios (fail-over and Badger restart) driven through the real lock, monitor comparing the new leader's revisions with an engine dump and the reference state", "5 C15",
-   "Held on generated old-leader histories with bursts of failed writes and lock renewals followed by a fail-over (all engines) or a close+reopen (Badger): the new leader's start and first revisions exceed every stored revision, guarded writes on existing keys succeed, earlier writes are listed.",
-   "election is driven in-process in client-go's call order and leader.go's on-elected action is applied by the harness"),
+   "Held on generated old-leader histories with bursts of failed writes and lock renewals followed by a fail-over (all engines; in half of them to a node that served concurrent follower reads all along), a close+reopen (Badger), or a restart through the real Campaign / on-elected callback with requests over gRPC: the new leader's start and first revisions exceed every stored revision, guarded writes on existing keys succeed, earlier writes are listed.",
+   "in 7 of 8 cases the election is driven in-process in client-go's call order and leader.go's on-elected action is applied by the harness; every 8th case uses the real Campaign loop"),
  "C16": ("exploration", "differential run of generated etcd request histories against an etcd-semantics reference model at the real etcd.RPCServer handlers, incl. a generated family of unsupported transactions with a state-unchanged monitor", "5 C16",
-   "Held (apart from the recorded Count finding) on generated histories of the four Kubernetes transaction shapes with correct/stale/zero expectations, point/range/limited/old-revision reads, count-only, a prefix watch with prev_kv, and 16 kinds of unsupported transactions which must be rejected and leave the store unchanged.",
-   "handlers are called directly (no gRPC transport in the quick tier); EnableEtcdCompatibility on"),
+   "Held (apart from the recorded Count finding) on generated histories of the four Kubernetes transaction shapes with correct/stale/zero expectations, point/range/limited/old-revision reads, count-only, a prefix watch with prev_kv, 16 kinds of unsupported transactions which must be rejected and leave the store unchanged, and concurrent etcd clients whose failed compares never return the compared revision.",
+   "handlers are called directly; EnableEtcdCompatibility on; the concurrent failure-branch rule is run on memkv/Badger only (the TiKV mock maps write conflicts to failed compares)"),
  "C17": ("exploration", "expiry monitor over an engine dump + reads + watch stream, with TTL shortened through the verif hook / the scanner's public config, ages measured on the monotonic clock", "5 C17",
-   "Held on generated histories mixing Event keys with look-alike keys on engines without native TTL (built-in compaction expiry, scanner driven directly and through a backend) and with native TTL (memkv, Badger), plus 1h-TTL controls: whatever lost records was an Event under <prefix>/events/, older than the TTL, removed wholly, creatable again, and no watch event was produced.",
+   "Held on generated histories mixing Event keys with look-alike keys on engines without native TTL (built-in compaction expiry, scanner driven directly and through a backend) and with native TTL (memkv, Badger), plus 1h-TTL controls: whatever lost records was an Event under <prefix>/events/, older than the TTL, removed wholly, creatable again, and no watch event was produced; also with a client update placed inside the expiry and with a storage error on the removal of an index record.",
    "expiry is never demanded, only constrained; a key counts as younger than the TTL only if its newest write BEGAN less than TTL before the observation"),
  "C18": ("exploration", "call-recording backend + scripted peers under the real revision syncer (role matrix); two-node follower-read monitor with interleavings placed by the revision verif hooks", "5 C18",
-   "Held on the full role matrix (every request type of both APIs x leader/follower x proxy on/off x leader reachable/unreachable/400/500) and on two-node runs with concurrent follower reads while the leader writes, including the placed schedule of a reader delayed between fetch and set.",
+   "Held on the full role matrix (every request type of both APIs x leader/follower x proxy on/off x leader reachable/unreachable/400/500) (incl. a recorded leader that is a real node which is not leading, answered by pkg/server's real /status handler) and on two-node runs with concurrent follower reads while the leader writes, including the placed schedules 'reader delayed between fetch and set' and 'five readers setting different revisions at the same instant'.",
    "the etcd proxy and the election are stubs; the leader's status endpoint re-serves the logic of server.revisionHandler"),
  "C20": ("exploration", "generated hostile protobuf-round-tripped requests against a node wired with the real Prometheus client; panic/crash capture, metric label-set recorder, probe write + conservation monitor after every request", "5 C20",
-   "Held on generated hostile requests to both APIs with production metrics: every call returned, nothing panicked (in the handler or in background goroutines), no metric name was emitted with two label sets, and after every request a probe write became readable and watchable.",
-   "handlers called in-process; election stubbed; reached request types and metric names are listed in evidence"),
+   "Held on a burst of concurrent first requests and on generated hostile requests to both APIs (every 4th case over a real loopback gRPC connection with the production interceptors) with production metrics: every call returned, nothing panicked (in the handler or in background goroutines), no metric name was emitted with two label sets, and after every request a probe write became readable and watchable.",
+   "3 of 4 cases call handlers in-process; election stubbed; reached request types and metric names are listed in evidence"),
 }
 def cmd(p, tier): return "./bin/kbcheck %s --tier %s" % (p, tier)
 hooks = subprocess.run(["git","-C","/repo","log","--format=%H %s"],capture_output=True,text=True).stdout.splitlines()
